@@ -10,7 +10,16 @@ checks = [pid]
 if "--checks" in sys.argv:
     checks = sys.argv[sys.argv.index("--checks") + 1].split(",")
 W = f"/tmp/seedeval-{pid}-{n}"
-env = dict(os.environ, CARGO_TARGET_DIR=f"/tmp/seedeval-target")   # shared target across evaluations (incremental)
+SLOT = os.environ.get("SEEDEVAL_SLOT", "A")
+env = dict(os.environ, CARGO_TARGET_DIR=f"/tmp/seedeval-target-{SLOT}")   # shared target across evaluations (incremental)
+# one evaluation per seed, even with several loops running
+lock = f"/verif/out/seedlock-{pid}-{n}"
+try:
+    os.makedirs(lock)
+except FileExistsError:
+    if "--force" not in sys.argv:
+        print("already evaluated or in progress:", lock)
+        sys.exit(0)
 
 
 def sh(cmd, cwd=None, timeout=3600, use_env=True):
@@ -18,8 +27,18 @@ def sh(cmd, cwd=None, timeout=3600, use_env=True):
     return r.returncode, r.stdout
 
 
-def suite(cwd):
-    rc, out = sh("cargo test --workspace --offline --no-fail-fast 2>&1", cwd)
+def demo_crates():
+    """crates touched by the demonstration (its tests live there)"""
+    try:
+        t = open(f"{src}/demo.diff").read()
+    except Exception:
+        return []
+    return sorted(set(re.findall(r"^\+\+\+ b/crates/([\w-]+)/", t, re.M)))
+
+
+def suite(cwd, only=None):
+    sel = "--workspace" if not only else " ".join(f"-p {c}" for c in only)
+    rc, out = sh(f"cargo test {sel} --offline --no-fail-fast 2>&1", cwd)
     passed = sum(int(x) for x in re.findall(r"test result: \w+\. (\d+) passed", out))
     failed = sum(int(x) for x in re.findall(r"test result: \w+\. \d+ passed; (\d+) failed", out))
     failing = re.findall(r"^test (\S+) \.\.\. FAILED", out, re.M)
@@ -40,9 +59,10 @@ try:
         rc, out = sh(f"git apply {src}/demo.diff", W)
         result["demo_applies"] = rc == 0
         if rc == 0:
-            result["suite_with_patch_and_demo"] = suite(W)
+            dc = demo_crates() or None
+            result["suite_with_patch_and_demo"] = suite(W, dc)
             sh(f"git apply -R {src}/patch.diff", W)
-            result["suite_with_demo_only"] = suite(W)
+            result["suite_with_demo_only"] = suite(W, dc)
 finally:
     sh(f"git -C /repo worktree remove --force {W}")
 a, b, c = result.get("suite_with_patch", {}), result.get("suite_with_patch_and_demo", {}), result.get("suite_with_demo_only", {})
@@ -74,8 +94,8 @@ if result["confirmed"] or "--force" in sys.argv:
         sh(f"git -C /repo worktree add --detach {S}/repo HEAD")
         rc, out = sh(f"git apply {src}/patch.diff", f"{S}/repo")
         sh(f"rsync -a --exclude target /verif/harness/ {S}/harness/ && sed -i 's|/repo/crates|{S}/repo/crates|g' {S}/harness/Cargo.toml")
-        rc, out = sh(f"CARGO_TARGET_DIR=/tmp/seedeval-htarget cargo build --release --offline 2>&1 | tail -3", f"{S}/harness", use_env=False)
-        sh(f"cp /tmp/seedeval-htarget/release/vh {S}/vh")
+        rc, out = sh(f"CARGO_TARGET_DIR=/tmp/seedeval-htarget-{SLOT} cargo build --release --offline 2>&1 | tail -3", f"{S}/harness", use_env=False)
+        sh(f"cp /tmp/seedeval-htarget-{SLOT}/release/vh {S}/vh")
         try:
             for c in checks:
                 t = time.time()
